@@ -1,5 +1,5 @@
 //@unit diag
-//@property C03
+//@property C03,C17
 // "Compiling ... returns either a runnable function or a compile error with at least one located message; it never ...
 // returns a function after having reported an error" (yarel/src/compiler.rs Parser::parse, Parser::error_at and its two
 // wrappers). Reported messages are only ever appended to `errors`; error_at drops a report only while in panic mode,
@@ -26,16 +26,22 @@ pub struct Upvalue { }
 pub struct Error { pub kind: ErrorKind, pub ghost n_messages: nat }
 // error.rs Error::with_messages over `errors.iter().map(String::as_str).collect()`: one message line per recorded report
 #[verifier::external_body]
-fn compile_error_from(errors: &Vec<String>) -> (e: Error) ensures e.kind is CompileError, e.n_messages == errors@.len() { unimplemented!() }
-// R22: formatting into the message buffer
+fn compile_error_from(errors: &Vec<Msg>) -> (e: Error) ensures e.kind is CompileError, e.n_messages == errors@.len() { unimplemented!() }
+// one diagnostic message under construction: which source line its head names (the text itself is not modelled)
+pub struct Msg { pub ghost line: Option<usize> }
+impl Msg { #[verifier::external_body] fn new() -> (r: Msg) ensures r.line is None { unimplemented!() } }
+// R35: the head of the message, `[module "…", line N] Error`
 #[verifier::external_body]
-fn verif_write(buf: &mut String) { unimplemented!() }
+fn verif_write_line(buf: &mut Msg, line: usize) ensures final(buf).line == Some(line) { unimplemented!() }
+// R22: formatting further text into the message buffer
+#[verifier::external_body]
+fn verif_write(buf: &mut Msg) ensures final(buf).line == old(buf).line { unimplemented!() }
 #[verifier::external_body]
 fn token_clone(t: &Token) -> (r: Token) ensures r == *t { unimplemented!() }
 
-//@struct file=yarel/src/compiler.rs name=Parser keepfields=current,previous,panic_mode,errors map "Parser<'a>" => "Parser" map "Cell<bool>" => "bool" map "RefCell<Vec<String>>" => "Vec<String>"
+//@struct file=yarel/src/compiler.rs name=Parser keepfields=current,previous,panic_mode,errors map "Parser<'a>" => "Parser" map "Cell<bool>" => "bool" map "RefCell<Vec<String>>" => "Vec<Msg>"
 
-pub open spec fn is_prefix(a: Seq<String>, b: Seq<String>) -> bool { a.len() <= b.len() && forall|i: int| 0 <= i < a.len() ==> #[trigger] b[i] == a[i] }
+pub open spec fn is_prefix(a: Seq<Msg>, b: Seq<Msg>) -> bool { a.len() <= b.len() && forall|i: int| 0 <= i < a.len() ==> #[trigger] b[i] == a[i] }
 
 impl Parser {
     // panic mode is only ever on when a message has been recorded
@@ -45,8 +51,9 @@ impl Parser {
 
     // A report is recorded unless one was already recorded since the last synchronisation point; either way an error is
     // on record afterwards, and earlier messages are kept.
-    //@fn file=yarel/src/compiler.rs path=Parser::error_at
-    //@  rewrite R9 R22
+    //@fn file=yarel/src/compiler.rs path=Parser::error_at props=C03,C17
+    //@  rewrite R9 R35 R22
+    //@  subst "String::new()" => "Msg::new()"
     //@  sig "&self" => "&mut self"
     //@  subst "self.panic_mode.get()" => "self.panic_mode"
     //@  subst "self.panic_mode.set(true);" => "self.panic_mode = true;"
@@ -54,18 +61,22 @@ impl Parser {
     //@  ensures final(self).errors@.len() > 0, final(self).inv(), final(self).panic_mode
     //@  ensures is_prefix(old(self).errors@, final(self).errors@)
     //@  ensures final(self).current == old(self).current, final(self).previous == old(self).previous
+    //@  ensures @a_recorded_report_names_the_line_of_the_offending_token !old(self).panic_mode ==> final(self).errors@.len() == old(self).errors@.len() + 1 && final(self).errors@.last().line == Some(token.line)
+    //@  ensures @a_suppressed_report_changes_nothing old(self).panic_mode ==> final(self).errors@ == old(self).errors@
     //@end
-    //@fn file=yarel/src/compiler.rs path=Parser::error
+    //@fn file=yarel/src/compiler.rs path=Parser::error props=C03,C17
     //@  sig "&self" => "&mut self"
     //@  subst "self.previous.clone()" => "token_clone(&self.previous)"
     //@  requires old(self).inv()
     //@  ensures final(self).errors@.len() > 0, old(self).reports_only(final(self))
+    //@  ensures @an_error_is_located_at_the_token_just_consumed !old(self).panic_mode ==> final(self).errors@.last().line == Some(old(self).previous.line)
     //@end
-    //@fn file=yarel/src/compiler.rs path=Parser::error_at_current
+    //@fn file=yarel/src/compiler.rs path=Parser::error_at_current props=C03,C17
     //@  sig "&self" => "&mut self"
     //@  subst "self.current.clone()" => "token_clone(&self.current)"
     //@  requires old(self).inv()
     //@  ensures final(self).errors@.len() > 0, old(self).reports_only(final(self))
+    //@  ensures @an_error_at_the_current_token_is_located_there !old(self).panic_mode ==> final(self).errors@.last().line == Some(old(self).current.line)
     //@end
 
     // the rest of the parser, as far as diagnostics go
